@@ -4,7 +4,7 @@ From Coq Require Import String.
 From RecordUpdate Require Import RecordSet.
 From Mux Require Import Model.Bytes Model.Wire Model.Regex Model.Context Model.Syntax Model.Tree Model.Router.
 From Mux Require Import Model.Http Model.Cors.
-From Mux Require Import Spec.Table Spec.Resolve.
+From Mux Require Import Spec.Table Spec.Resolve Spec.Inv.
 Import RecordSetNotations.
 
 Fixpoint print_h (h : hterm) : bytes :=
@@ -582,11 +582,11 @@ Definition handle_clauses (s : srt) (o : line) (r : list bytes) : list bytes :=
                     end in
      if no_icpt then
        check (negb (accepted && negb synok)) "C05:handle-accepts-what-checksyntax-rejects" ++
-       match live_toks s with
-       | Some _ =>
+       match live_toks s, c1 with
+       | Some _, PWf _ =>
          check (accepted || negb synok || negb mvalid || dup || negb (match twins with [] => true | _ => false end))
                "C05:handle-rejects-what-checksyntax-accepts"
-       | None => []
+       | _, _ => []          (* twins of patterns outside the well-formed fragment (/{-}) are not decided here *)
        end
      else []
    | None, _, _ => []
@@ -732,6 +732,13 @@ Definition oracle_all (s s' : srt) (o : line) (r : list bytes) : list bytes :=
    else if beqb op (bs "routes") then routes_clauses s r
    else if beqb op (bs "url") then url_clauses s o r
    else if beqb op (bs "handle") then handle_clauses s o r
+   else if beqb op (bs "dump") then
+     (* the invariants the tree theorems assume hold in this state (model state = dumped implementation state) *)
+     (if unsup s then [] else
+      let broken := negb (tree_inv_b (rtree (rt s))) in
+      let cnt := negb (counters_ok (rtree (rt s))) in
+      (if broken then map (fun p => p ++ bs ":tree-invariant-broken-in-reached-state") [bs "C01"; bs "C02"; bs "C03"; bs "C05"] else []) ++
+      (if broken || cnt then [cl "C04:bitset-or-counter-invariant-broken-in-reached-state"] else []))
    else if beqb op (bs "c19eq") then check (obs_is r "1") "C19:facade-program-differs-from-its-desugaring"
    else if beqb op (bs "creq") then creq_clauses s o r
    else if beqb op (bs "script") then script_clauses s o r
@@ -808,6 +815,7 @@ Definition tags_rt (s s' : srt) (o : line) (r : list bytes) : list bytes :=
       else [bs "serve"; bs "serve-panic"]
     | _ => [bs "serve"]
     end
+  else if beqb op (bs "dump") then [bs "dump"; if tree_inv_b (rtree (rt s)) then bs "invariants-hold" else bs "invariants-broken"]
   else if beqb op (bs "handle") then [if obs_is r "ok" then bs "handle-ok" else bs "handle-rejected"]
   else if beqb op (bs "url") then [if obs_is r "ok" then bs "url-ok" else bs "url-err"]
   else [op].
